@@ -64,7 +64,9 @@ fn line_family(ctx: &mut Ctx, ps: &mut Parsers, sample: &[u32], all: &[u32]) {
         alphabet::nth(LINES, idx, &mut s);
         for head in HEADS {
             let text = format!("{head}{s}");
-            let exts: &[u32] = if thorough && text.contains('[') { all } else { sample };
+            // all 192 subsets for the bracketed-key inputs of up to 3 lines (thorough); the 4-line sequences use the sample
+            let short = idx < alphabet::count_upto(LINES.len(), 3);
+            let exts: &[u32] = if thorough && short && text.contains('[') { all } else { sample };
             for e in exts {
                 for conv in ["bundled", "empty"] {
                     check_case(ctx, ps, &Case::new("lines", text.as_str(), *e, conv));
